@@ -28,7 +28,9 @@
 
   Main results: `sinv_init`, `RInv.init`; `SInv.registerComponent` (2a); `SInv.createArchetype`
   (2b); `SInv.findOrCreateArch` (2c); `createTable_eq` / `createTable_ok` (decomposition into
-  checks, storage part, cache part), `SInvMid.createTable` (2d, result record `CreatedTable`),
+  checks, storage part, cache part; the first loop `checkRelList` with the check added by the
+  repair of defect D18: `checkRelList_nil_eq_none_iff`, `createTable_ok_nodup`,
+  `createTable_not_nodup`), `SInvMid.createTable` (2d, result record `CreatedTable`),
   `SInvMid.createTable_total` (success under `CacheRelsOK`); `getTable_state`,
   `getTable_some_mem` (2e); `SInv.findOrCreateTableAdd_of_ok(_rinv)` (3, general, on success),
   `SInv.findOrCreateTableAdd_spec(_new)` (3, total, relation-free case),
@@ -589,21 +591,100 @@ theorem ct_tail (X : World) (n : Nat) :
   unfold ctFinish
   cases X.cacheAddTable (X.tbl n) <;> rfl
 
-/-- `createTable` = argument checks; relation checks; storage part; cache part. -/
+/-- the first loop of `createTable` passes exactly when no relation component is named twice
+    (nor is among those seen before) and every named component is a column of the archetype -/
+theorem checkRelList_eq_none_iff (A : Archetype) (seen : List Comp) (rels : List RelID) :
+    checkRelList A seen rels = none ↔
+      ((rels.map (·.comp)).Nodup ∧ (∀ (r : RelID), r ∈ rels → r.comp ∉ seen)) ∧
+        ∀ (r : RelID), r ∈ rels → (A.colIdx r.comp).isSome = true := by
+  induction rels generalizing seen with
+  | nil => simp [checkRelList]
+  | cons r rest ih =>
+    unfold checkRelList
+    by_cases hs : seen.contains r.comp = true
+    · rw [if_pos hs]
+      constructor
+      · intro h; cases h
+      · rintro ⟨⟨_, h2⟩, _⟩
+        exact absurd (List.contains_iff_mem.1 hs) (h2 r List.mem_cons_self)
+    · rw [if_neg hs]
+      have hs' : r.comp ∉ seen := fun hm => hs (List.contains_iff_mem.2 hm)
+      cases hc : A.colIdx r.comp with
+      | none =>
+        simp only [Option.isNone_none, if_true]
+        constructor
+        · intro h; cases h
+        · rintro ⟨_, h3⟩
+          have := h3 r List.mem_cons_self
+          rw [hc] at this; cases this
+      | some i =>
+        simp only [Option.isNone_some, Bool.false_eq_true, if_false]
+        rw [ih]
+        constructor
+        · rintro ⟨⟨h1, h2⟩, h3⟩
+          refine ⟨⟨?_, ?_⟩, ?_⟩
+          · rw [List.map_cons, List.nodup_cons]
+            refine ⟨?_, h1⟩
+            intro hm
+            obtain ⟨r', hr', he⟩ := List.mem_map.1 hm
+            exact h2 r' hr' (by rw [he]; exact List.mem_cons_self)
+          · intro r' hr'
+            rcases List.mem_cons.1 hr' with rfl | hm
+            · exact hs'
+            · exact fun hin => h2 r' hm (List.mem_cons_of_mem _ hin)
+          · intro r' hr'
+            rcases List.mem_cons.1 hr' with rfl | hm
+            · rw [hc]; rfl
+            · exact h3 r' hm
+        · rintro ⟨⟨h1, h2⟩, h3⟩
+          rw [List.map_cons, List.nodup_cons] at h1
+          refine ⟨⟨h1.2, ?_⟩, fun r' hr' => h3 r' (List.mem_cons_of_mem _ hr')⟩
+          intro r' hr' hin
+          rcases List.mem_cons.1 hin with he | hm
+          · exact h1.1 (List.mem_map.2 ⟨r', hr', he⟩)
+          · exact h2 r' (List.mem_cons_of_mem _ hr') hm
+
+/-- **the first loop of `createTable` passes exactly when no relation component is named twice
+    and every named component is a column of the archetype** -/
+theorem checkRelList_nil_eq_none_iff (A : Archetype) (rels : List RelID) :
+    checkRelList A [] rels = none ↔
+      (rels.map (·.comp)).Nodup ∧ ∀ (r : RelID), r ∈ rels → (A.colIdx r.comp).isSome = true := by
+  rw [checkRelList_eq_none_iff]
+  constructor
+  · rintro ⟨⟨h1, _⟩, h3⟩; exact ⟨h1, h3⟩
+  · rintro ⟨h1, h3⟩; exact ⟨⟨h1, fun _ _ hm => by cases hm⟩, h3⟩
+
+/-- the first loop of `createTable` panics only with "named twice" or the index −1 runtime panic -/
+theorem checkRelList_some (A : Archetype) (seen : List Comp) (rels : List RelID) (k : PanicKind)
+    (h : checkRelList A seen rels = some k) : k = .relTwice ∨ k = .runtime := by
+  induction rels generalizing seen with
+  | nil => cases h
+  | cons r rest ih =>
+    unfold checkRelList at h
+    split at h
+    · injection h with h; exact Or.inl h.symm
+    · split at h
+      · injection h with h; exact Or.inr h.symm
+      · exact ih _ h
+
+/-- `createTable` = argument checks (length; the first loop `checkRelList`: a relation component
+    named twice, a component that is no column); relation checks; storage part; cache part. -/
 theorem createTable_eq (a : Nat) (rels : List RelID) (w : World) :
     createTable a rels w =
       if rels.length < (w.arch a).numRel then .panic .relUnspecified w
-      else if (rels.all fun r => ((w.arch a).colIdx r.comp).isSome) = false then .panic .runtime w
-      else if RelsValid w rels then ctFinish (createTableS w a rels)
-      else .panic (relPanic w rels) w := by
+      else match checkRelList (w.arch a) [] rels with
+        | some k => .panic k w
+        | none =>
+          if RelsValid w rels then ctFinish (createTableS w a rels)
+          else .panic (relPanic w rels) w := by
   unfold createTable
-  simp only [bind, M.bind, M.get, M.assert, pure]
   by_cases h1 : rels.length < (w.arch a).numRel
-  · simp [h1]
-  · simp only [h1, decide_false, Bool.not_false, if_true, if_false]
-    cases h2 : (rels.all fun r => ((w.arch a).colIdx r.comp).isSome)
-    · simp
-    · simp only [if_true, Bool.true_eq_false, if_false]
+  · simp [bind, M.bind, M.get, M.assert, h1]
+  · simp only [h1, if_false]
+    cases h2 : checkRelList (w.arch a) [] rels with
+    | some k => simp [bind, M.bind, M.get, M.assert, h1, h2]
+    | none =>
+      simp only [bind, M.bind, M.get, M.assert, pure, h1, h2, decide_false, Bool.not_false, if_true]
       rcases relChecks_cases rels w with ⟨h3, h4⟩ | ⟨h3, k, h4⟩
       · rw [if_pos h3]
         have h4' : M.forM' rels (fun r => M.bind (checkRelationComponent r.comp) fun _ =>
@@ -625,12 +706,13 @@ theorem createTable_eq (a : Nat) (rels : List RelID) (w : World) :
         rw [h4']; simp only [relPanic, h4]
 
 /-- on success: the arguments passed all checks and the result is the storage part followed by
-    the cache part -/
-theorem createTable_ok {a : Nat} {rels : List RelID} {w w' : World} {t : Nat}
+    the cache part; no relation component was named twice (`createTable_ok_nodup`) -/
+theorem createTable_ok' {a : Nat} {rels : List RelID} {w w' : World} {t : Nat}
     (h : createTable a rels w = .ok t w') :
-    (w.arch a).numRel ≤ rels.length ∧ (∀ (r : RelID), r ∈ rels → ((w.arch a).colIdx r.comp).isSome = true) ∧
+    ((w.arch a).numRel ≤ rels.length ∧ (∀ (r : RelID), r ∈ rels → ((w.arch a).colIdx r.comp).isSome = true) ∧
     RelsValid w rels ∧ t = (createTableS w a rels).2 ∧
-    (createTableS w a rels).1.cacheAddTable ((createTableS w a rels).1.tbl t) = some w' := by
+    (createTableS w a rels).1.cacheAddTable ((createTableS w a rels).1.tbl t) = some w') ∧
+    (rels.map (·.comp)).Nodup := by
   rw [createTable_eq] at h
   split at h
   · cases h
@@ -638,32 +720,66 @@ theorem createTable_ok {a : Nat} {rels : List RelID} {w w' : World} {t : Nat}
     split at h
     · cases h
     · rename_i h2
+      obtain ⟨hnd, hcol⟩ := (checkRelList_nil_eq_none_iff _ _).1 h2
       split at h
       · rename_i h3
-        refine ⟨by omega, ?_, h3, ?_⟩
-        · intro r hr
-          have : (rels.all fun r => ((w.arch a).colIdx r.comp).isSome) = true := by
-            cases hh : (rels.all fun r => ((w.arch a).colIdx r.comp).isSome)
-            · exact absurd hh h2
-            · rfl
-          exact List.all_eq_true.1 this r hr
-        · unfold ctFinish at h
-          split at h
-          · cases h
-          · rename_i w1 hc
-            injection h with h5 h6
-            subst h5; subst h6
-            exact ⟨rfl, hc⟩
+        refine ⟨⟨by omega, hcol, h3, ?_⟩, hnd⟩
+        unfold ctFinish at h
+        split at h
+        · cases h
+        · rename_i w1 hc
+          injection h with h5 h6
+          subst h5; subst h6
+          exact ⟨rfl, hc⟩
       · cases h
+
+/-- on success: the arguments passed all checks and the result is the storage part followed by
+    the cache part -/
+theorem createTable_ok {a : Nat} {rels : List RelID} {w w' : World} {t : Nat}
+    (h : createTable a rels w = .ok t w') :
+    (w.arch a).numRel ≤ rels.length ∧ (∀ (r : RelID), r ∈ rels → ((w.arch a).colIdx r.comp).isSome = true) ∧
+    RelsValid w rels ∧ t = (createTableS w a rels).2 ∧
+    (createTableS w a rels).1.cacheAddTable ((createTableS w a rels).1.tbl t) = some w' :=
+  (createTable_ok' h).1
+
+/-- on success no relation component was named twice (the check added by the repair of D18) -/
+theorem createTable_ok_nodup {a : Nat} {rels : List RelID} {w w' : World} {t : Nat}
+    (h : createTable a rels w = .ok t w') : (rels.map (·.comp)).Nodup :=
+  (createTable_ok' h).2
+
+/-- a relation list naming a component twice is rejected by `createTable` with the state
+    unchanged: `.relTwice` at the first repetition unless an earlier check panics
+    (`.relUnspecified` for too short a list, `.runtime` for an earlier non-column) -/
+theorem createTable_not_nodup {a : Nat} {rels : List RelID} {w : World}
+    (h : ¬ (rels.map (·.comp)).Nodup) :
+    ∃ (k : PanicKind), createTable a rels w = .panic k w ∧
+      (k = .relUnspecified ∨ k = .relTwice ∨ k = .runtime) := by
+  rw [createTable_eq]
+  split
+  · exact ⟨_, rfl, Or.inl rfl⟩
+  · cases h2 : checkRelList (w.arch a) [] rels with
+    | none => exact absurd ((checkRelList_nil_eq_none_iff _ _).1 h2).1 h
+    | some k => exact ⟨k, rfl, Or.inr (checkRelList_some _ _ _ _ h2)⟩
+
+/-- the panic of the first loop is the panic of `createTable`, state unchanged -/
+theorem createTable_of_check {a : Nat} {rels : List RelID} {w : World} {k : PanicKind}
+    (h1 : (w.arch a).numRel ≤ rels.length) (h2 : checkRelList (w.arch a) [] rels = some k) :
+    createTable a rels w = .panic k w := by
+  rw [createTable_eq, if_neg (by omega), h2]
+
+/-- too short a relation list: `relUnspecified`, state unchanged -/
+theorem createTable_of_short {a : Nat} {rels : List RelID} {w : World}
+    (h1 : rels.length < (w.arch a).numRel) : createTable a rels w = .panic .relUnspecified w := by
+  rw [createTable_eq, if_pos h1]
 
 /-- conversely, with all checks passing `createTable` is the storage part then the cache part -/
 theorem createTable_of_valid {a : Nat} {rels : List RelID} {w : World}
     (h1 : (w.arch a).numRel ≤ rels.length)
     (h2 : ∀ (r : RelID), r ∈ rels → ((w.arch a).colIdx r.comp).isSome = true)
+    (hnd : (rels.map (·.comp)).Nodup)
     (h3 : RelsValid w rels) : createTable a rels w = ctFinish (createTableS w a rels) := by
-  rw [createTable_eq, if_neg (by omega), if_neg, if_pos h3]
-  rw [Bool.not_eq_false]
-  exact List.all_eq_true.2 h2
+  rw [createTable_eq, if_neg (by omega), (checkRelList_nil_eq_none_iff _ _).2 ⟨hnd, h2⟩]
+  simp only [if_pos h3]
 
 /-- `cache.addTable` changes only the cache -/
 theorem cacheAddTable_frame {w w' : World} {T : Table} (h : w.cacheAddTable T = some w') :
@@ -1973,7 +2089,7 @@ theorem SInv.findOrCreateTableAdd_spec {w : World} (h : SInv w) (hI : IdxInv w) 
       have hemp : (w1.arch a).tables.tables = [] := List.isEmpty_iff.1 hem
       have h0 : (w1.arch a).numRel = 0 := by simpa [Archetype.hasRelations] using hnr1
       have hct0 := createTable_of_valid (a := a) (rels := []) (w := w1) (by omega)
-        (by intro r hr; cases hr) (by intro r hr; cases hr)
+        (by intro r hr; cases hr) List.nodup_nil (by intro r hr; cases hr)
       obtain ⟨A2, Tn, ta, r1, _, _, _⟩ := hmid.createTableS_added hA1 (rels := [])
         (by intro r hr; cases hr) (by intro r hr; cases hr) (fun _ => hemp)
       have hTn : (createTableS w1 a []).1.tbl (createTableS w1 a []).2 = Tn := tbl_of_get ta.tget_self
@@ -2173,13 +2289,15 @@ theorem Table.colIdx_isSome_of_mem {T : Table} {c : Comp} (h : c ∈ T.ids) : (T
   simp only
   rw [if_pos (List.idxOf_lt_length_of_mem h)]; rfl
 
-/-- **2d, totality**: when the arguments pass the three checks of `createTable` and the cached
+/-- **2d, totality**: when the arguments pass the checks of `createTable` (no relation component
+    named twice — the repair of D18 —, every one a column, `RelsValid`) and the cached
     filters are well-formed (`CacheRelsOK`), `createTable` succeeds (and `CreatedTable` holds). -/
 theorem SInvMid.createTable_total {w : World} (h : SInvMid w) (hc : CacheRelsOK w) {a : Nat}
     {rels : List RelID} (ha : a < w.archetypes.length)
     (hnr : (w.arch a).hasRelations = false → (w.arch a).tables.tables = [])
     (h1 : (w.arch a).numRel ≤ rels.length)
     (h2 : ∀ (r : RelID), r ∈ rels → ((w.arch a).colIdx r.comp).isSome = true)
+    (hnd : (rels.map (·.comp)).Nodup)
     (h3 : RelsValid w rels) :
     ∃ (t : Nat) (w' : World), World.createTable a rels w = .ok t w' ∧ CreatedTable w w' a rels t := by
   have hA := aget_of_lt ha
@@ -2194,7 +2312,7 @@ theorem SInvMid.createTable_total {w : World} (h : SInvMid w) (hc : CacheRelsOK 
     rw [ta.tIds]
     exact (h.mem_comps hA c).2 hcm)
   have hok : World.createTable a rels w = .ok (createTableS w a rels).2 w' := by
-    rw [createTable_of_valid h1 h2 h3, ctFinish, hTn, hw']
+    rw [createTable_of_valid h1 h2 hnd h3, ctFinish, hTn, hw']
   exact ⟨_, w', hok, h.createTable ha hnr hok⟩
 
 end Ark
